@@ -65,6 +65,18 @@ CHECKS = [
         "text": "Deserialization: every type x every datum at <=1 deviation x no_copy x override_dataclass_constructors x {deserialize(), precomputed method}: same verdict, same typed value, identical errors; no shared mutable container with the input when no_copy=False; input never modified. Serialization: every model-built value x no_copy x check_type x {function, method} x all 32 PassThroughOptions flag vectors (+ types as a set and as a predicate): equal to the default output after completing passed-through leaves with serialization_default.",
         "note": "quick = level<=1 types; thorough adds the level-2 pairs. Known finding: pass-through dataclass holding a flattened field raises TypeError.",
     },
+    {
+        "id": "C06", "engine": "E1", "design_ref": "DESIGN.md §5 C06",
+        "technique": "bounded exhaustive enumeration of (type, options, datum) with an independent JSON Schema validator (jsonschema, draft 2020-12) as oracle for the schema side",
+        "text": "For every type of the grammar, additional_properties x aliaser x all_refs and every datum at <=2 deviations inside the common semantic domain stated by the property, the verdict of jsonschema.Draft202012Validator on deserialization_schema(T, ...) must equal the verdict of the real deserialize; the schema must also pass check_schema; disagreements are classified by direction and deciding keyword.",
+        "note": "Trusted: jsonschema 4.26. Excluded (documented): fall_back_on_default fields (lenient parsing of invalid fields), keys matching two overlapping properties(pattern) fields (first-match vs all-match). Known findings: flattened objects' schema; nested flattened schema generation.",
+    },
+    {
+        "id": "C07", "engine": "E1", "design_ref": "DESIGN.md §5 C07",
+        "technique": "bounded exhaustive enumeration of (type, value, global exclude settings, aliaser, additional_properties) with jsonschema as oracle",
+        "text": "Every model-built value of every type of the grammar is serialized under settings.serialization.exclude_defaults x exclude_none (global) x 3 aliasers x additional_properties and validated by jsonschema against serialization_schema generated under the same settings.",
+        "note": "exclude_unset=False (no field dropped by unset-tracking, as the property requires). Same known findings as C06 for flattened objects.",
+    },
 ]
 _PENDING = "check not built yet in this round (planned, see DESIGN.md §5); not claimed until it runs green"
-NOT_APPLICABLE = [{"property_id": f"C{i:02d}", "reason": _PENDING} for i in range(4, 20) if i not in (4, 5, 8, 9, 13, 14, 15)]
+NOT_APPLICABLE = [{"property_id": f"C{i:02d}", "reason": _PENDING} for i in range(4, 20) if i not in (4, 5, 6, 7, 8, 9, 13, 14, 15)]
